@@ -431,7 +431,7 @@ def run_big(case, ctx):
     ranks for n <= 15/16, low shape ranks or root-capped random topologies (subtrees <= 12/13 leaves, n <= 28/32)."""
     rng = case_rng(case)
     tier = case["tier"]
-    mode = rng.choice(["uniform", "uniform", "low", "topo", "topo", "groups", "groups"])
+    mode = rng.choice(["uniform", "uniform", "low", "topo", "topo", "groups", "groups", "biggroups"])
     umax = 15 if tier == "quick" else 16
     cap = 12 if tier == "quick" else 13
     ctx.feature("big:" + mode)
@@ -449,6 +449,9 @@ def run_big(case, ctx):
         # rank()/unrank() also walk the partitions of n up to the tree's own one: p(32) = 8 349, p(60) = 966 467
         if mode == "groups":
             par, n = grouped_topology(rng)
+        elif mode == "biggroups":
+            par, n = big_grouped_topology(rng)
+            ctx.feature(f"biggroups:labellings-2^{(math.factorial(n) // aut(shape_of(canon(_kids_of(par), _root_of(par))))).bit_length() - 1}")
         else:
             n = rng.randint(umax + 1, 28 if tier == "quick" else 32)
             par = random_topology(rng, n, n, cap=cap)
@@ -592,6 +595,42 @@ def rebuild(rng, trees, n, junk=None, unsquashed=False):
     m.nodes = [(NODE_IS_SAMPLE if u < n else 0, times[u], NULL, NULL, b"") for u in range(num_nodes)]
     m.edges = sorted(edges, key=sort_edges_key(m))
     return to_ts(m), m
+
+
+def _kids_of(par):
+    kids = {}
+    for c, p in par.items():
+        kids.setdefault(p, []).append(c)
+    return kids
+
+
+def _root_of(par):
+    return [p for p in set(par.values()) if p not in par][0]
+
+
+# (number of sibling subtrees, leaves in each): the number of ways to deal the labels over the group,
+# (m k)! / (k!^m m!), lies around and beyond 2^53 / 2^63 / 2^64 while every single binomial factor stays small
+BIG_GROUPS = [(8, 4), (11, 3), (5, 7), (4, 10), (3, 16), (18, 2), (6, 6), (7, 5), (9, 4), (12, 3), (20, 2),
+              (7, 4), (16, 2), (17, 2), (10, 3), (6, 5), (5, 6), (4, 8), (3, 12)]
+
+
+def big_grouped_topology(rng):
+    """A root whose children are m >= 3 stars (cherries for k = 2) of k leaves each (+ 0-2 extra leaves): child
+    shape ranks stay tiny, so tskit's unrank terminates, while the label counts need exact big-integer arithmetic."""
+    m_, k = rng.choice(BIG_GROUPS)
+    extra = rng.choice([0, 0, 0, 1, 2])
+    n = m_ * k + extra
+    labels = list(range(n))
+    rng.shuffle(labels)
+    par = {}
+    root = n
+    for j in range(m_):
+        for x in labels[j * k:(j + 1) * k]:
+            par[x] = n + 1 + j
+        par[n + 1 + j] = root
+    for x in labels[m_ * k:]:
+        par[x] = root
+    return par, n
 
 
 def grouped_topology(rng):
